@@ -34,6 +34,11 @@ def make_cv(spec):
         return KFold(n_splits=spec[1], shuffle=spec[2], random_state=spec[3] if spec[2] else None)
     if kind == "shuffle":
         return ShuffleSplit(n_splits=spec[1], test_size=spec[2], random_state=spec[3])
+    if kind == "shuffle-partial":      # training and test rows together do NOT cover the dataset
+        return ShuffleSplit(n_splits=spec[1], test_size=spec[2], train_size=spec[4], random_state=spec[3])
+    if kind == "timeseries":           # growing training sets that never cover the rows after the test fold
+        from sklearn.model_selection import TimeSeriesSplit
+        return TimeSeriesSplit(n_splits=spec[1])
     if kind == "blockkfold":
         return vd.BlockKFold(shape=tuple(spec[4]), n_splits=spec[1], shuffle=spec[2], random_state=spec[3])
     if kind == "blockshuffle":
@@ -142,8 +147,11 @@ def generate(rng, tier):
             seed = rng.randint(0, 10**6)
             if k < 0.3:
                 spec = ["kfold", rng.randint(2, min(5, npts // 2)), rng.random() < 0.5, seed]
-            elif k < 0.5:
+            elif k < 0.4:
                 spec = ["shuffle", rng.randint(1, 4), rng.choice([0.25, 0.4, 0.5]), seed]
+            elif k < 0.5:
+                spec = rng.choice([["shuffle-partial", rng.randint(1, 3), rng.choice([0.25, 0.3]), seed, rng.choice([0.3, 0.5])],
+                                   ["timeseries", rng.randint(2, min(4, npts // 3))]])
             elif k < 0.8:
                 spec = ["blockkfold", 2, rng.random() < 0.5, seed, [rng.randint(2, 3), rng.randint(2, 3)]]
             else:
@@ -390,16 +398,14 @@ def oracle(case, io):
         coords, shape2d, data, weights, cvspec, scoring, est = a
         if C.is_err(io):
             return "cross_val_score failed, was schedule dependent, or modified the estimator: " + io[1]
-        if est not in REAL:
-            return None
-        scores = io[1]
+        scores = io[1] if est in REAL else [float("nan") if v is None else v for v in io]
         splits = splits_of(cvspec, coords[0], coords[1])
         if len(scores) != len(splits):
             return "one score per split expected"
         from sklearn.metrics import mean_absolute_error, mean_squared_error, r2_score
         for (tr, te), got in zip(splits, scores):
             sel = lambda arr, idx: np.array(arr)[idx]  # noqa: E731
-            ncomp = 2 if est == "vector" else 1
+            ncomp = len(data)
             dtr = tuple(sel(data[c], tr) for c in range(ncomp))
             wtr = None if weights is None else tuple(sel(weights[c], tr) for c in range(ncomp))
             t = mk_est(est).fit((sel(coords[0], tr), sel(coords[1], tr)), dtr if ncomp > 1 else dtr[0],
